@@ -6,6 +6,7 @@ import (
 	"fmt"
 	"io"
 	"testing"
+	"time"
 
 	"github.com/tsenart/vegeta/v12/internal/zzverif/vgen"
 	"github.com/tsenart/vegeta/v12/internal/zzverif/vh"
@@ -173,3 +174,64 @@ func TestC13RoundRobin(t *testing.T) {
 func init() {
 	vh.RegisterReplay("C13.roundrobin", vh.Replayer(runC13))
 }
+
+// c13Long: inputs of very unequal lengths - one or two with tens of thousands of records next to inputs that end
+// after a few - so that the combined decoder is asked a hundred thousand times and more after most inputs have ended.
+// The records are synthetic and rebuilt from the lengths.
+type c13Long struct {
+	Lens   []int
+	Codecs []string
+	Auto   bool
+}
+
+func (l c13Long) expand() c13Case {
+	c := c13Case{Auto: l.Auto}
+	for i, n := range l.Lens {
+		f := c13File{Codec: l.Codecs[i%len(l.Codecs)]}
+		for j := 0; j < n; j++ {
+			f.Results = append(f.Results, vegeta.Result{Attack: fmt.Sprintf("f%d/%d", i, j), Seq: uint64(j), Code: uint16(200 + j%7), Timestamp: time.Unix(1600000000+int64(j), int64(i)).UTC(),
+				Latency: time.Duration(j*1000 + i), BytesIn: uint64(j % 97), Method: "GET", URL: "http://long.test/"})
+		}
+		c.Files = append(c.Files, f)
+	}
+	return c
+}
+
+func runC13Long(l c13Long) error {
+	total := 0
+	for _, n := range l.Lens {
+		if n < 0 {
+			return fmt.Errorf("bad case")
+		}
+		total += n
+	}
+	if len(l.Lens) == 0 || len(l.Lens) > 8 || len(l.Codecs) == 0 || total > 1<<21 {
+		return fmt.Errorf("bad case")
+	}
+	return runC13(l.expand())
+}
+
+func TestC13LongInputs(t *testing.T) {
+	vh.Check(t, 6, 60, func(t *rapid.T) {
+		nf := rapid.IntRange(2, 6).Draw(t, "nfiles")
+		l := c13Long{Auto: rapid.Bool().Draw(t, "auto"), Codecs: rapid.SliceOfN(rapid.SampledFrom([]string{"csv", "gob", "json"}), 1, 3).Draw(t, "codecs")}
+		long := rapid.IntRange(0, nf-1).Draw(t, "long")
+		for i := 0; i < nf; i++ {
+			n := rapid.IntRange(1, 5).Draw(t, fmt.Sprintf("len%d", i))
+			if i == long || rapid.IntRange(0, 5).Draw(t, fmt.Sprintf("long%d", i)) == 0 {
+				n = rapid.IntRange(70000/nf, 140000/nf).Draw(t, fmt.Sprintf("llen%d", i))
+			}
+			l.Lens = append(l.Lens, n)
+		}
+		sig, _ := json.Marshal(l)
+		vh.Case("C13.longinputs", string(sig), true, fmt.Sprintf("files=%d", nf))
+		vh.Sample("C13.longinputs", true, l)
+		var err error
+		vh.Guard("C13", "C13.longinputs", l, func() { err = runC13Long(l) })
+		if err != nil {
+			vh.Fail(t, "C13", "C13.longinputs", l, err)
+		}
+	})
+}
+
+func init() { vh.RegisterReplay("C13.longinputs", vh.Replayer(runC13Long)) }
